@@ -589,6 +589,7 @@ type sched struct {
 	done   chan int // a client has finished
 	parked []bool
 	alive  []bool
+	pseudo []bool // the client is parked at a Yield, not at a file operation
 }
 
 func goid() uint64 {
@@ -615,14 +616,39 @@ func (s *sched) wait() int {
 	return c
 }
 
+// Yield is a scheduling point that is NOT a file operation: in scheduler mode the calling client
+// waits for a turn and then simply goes on (nothing is numbered or logged).  The worker calls it
+// between two API calls of a client, so that the START of a call is placed by the schedule also
+// when the call performs no file operation at all (an answer from memory).  Such a turn appears in
+// the sequence RunScheduled returns as -(client+1).
+func Yield() {
+	ctl.mu.Lock()
+	s := ctl.sched
+	ctl.mu.Unlock()
+	if s == nil {
+		return
+	}
+	s.mu.Lock()
+	c, ok := s.byGo[goid()]
+	if ok {
+		s.pseudo[c] = true
+	}
+	s.mu.Unlock()
+	if !ok {
+		return
+	}
+	s.yield <- c
+	<-s.grant[c]
+}
+
 // RunScheduled runs the client functions as goroutines that execute one file operation per
 // turn; schedule[i] names client schedule[i] mod n (an entry naming a client that has finished
 // is skipped).  When the schedule is exhausted the remaining clients run round robin.  It
-// returns the sequence of clients actually chosen.
+// returns the sequence of clients actually chosen (-(c+1) for a turn client c spent at a Yield).
 func RunScheduled(clients []func(), schedule []int) ([]int, error) {
 	n := len(clients)
 	s := &sched{byGo: map[uint64]int{}, grant: make([]chan struct{}, n), yield: make(chan int), done: make(chan int),
-		parked: make([]bool, n), alive: make([]bool, n)}
+		parked: make([]bool, n), alive: make([]bool, n), pseudo: make([]bool, n)}
 	for i := range s.grant {
 		s.grant[i] = make(chan struct{})
 		s.alive[i] = true
@@ -692,7 +718,14 @@ func RunScheduled(clients []func(), schedule []int) ([]int, error) {
 			c = live[rr%len(live)]
 			rr++
 		}
-		chosen = append(chosen, c)
+		s.mu.Lock()
+		if s.pseudo[c] {
+			s.pseudo[c] = false
+			chosen = append(chosen, -(c + 1)) // a turn spent at a Yield: no operation
+		} else {
+			chosen = append(chosen, c)
+		}
+		s.mu.Unlock()
 		s.parked[c] = false
 		s.grant[c] <- struct{}{}
 		if err := settle(1); err != nil {
